@@ -21,7 +21,7 @@ CHECKS = {
     category='proof',
     text='Gillespie_SIR: the view/rate loop invariants (infecteds = {u->w_u | I}, IS_links = {(u,v)->w_uv | adj,I,S}, rates = gamma*sum, tau*sum) '
          'are established and preserved for graphs of any order (node sort uninterpreted), so in EVERY reachable state the expovariate '
-         'argument is the chain\'s total rate and the branch threshold recovery/total; actors are drawn through the C16 contracts. fast_SIR: '
+         'argument is the chain\'s total rate and the branch threshold recovery/total; actors are drawn through the _ListDict_ contracts, whose units (C16) are re-verified inside this check. fast_SIR: '
          'delegation-site obligations (delay rules draw Exp(tau*w_uv), Exp(gamma*w_u), infinite for rate 0; fast path = binomial + sample + truncated '
          'exponential), handler contracts, queue rule (lemma unit: one event-loop step preserves the global invariant). The step from these '
          'per-state facts to equality in law is cited (Gillespie direct method, thinning, Sellke/Dijkstra), not machine-checked; a bounded native comparison of the state distribution '
@@ -33,7 +33,7 @@ CHECKS = {
  'C02': dict(
     category='proof',
     text='Gillespie_SIS: view/rate loop invariants with link re-insertion on recovery, draw-site obligations, all ways of passing the initial condition, weighted and unweighted, '
-         'graphs of any order. fast_SIS: the three handlers under contract (_find_next_trans_SIS_Markov: queued time = now + Exp(rate), re-drawn from the target\'s recovery time '
+         'graphs of any order (the _ListDict_ units it relies on are re-verified inside this check). fast_SIS: the three handlers under contract (_find_next_trans_SIS_Markov: queued time = now + Exp(rate), re-drawn from the target\'s recovery time '
          'when it falls before it, queued only if before the source\'s recovery and tmax; _process_trans_SIS_Markov: infect iff susceptible, recovery ~ Exp(rec rate), one attempt chain '
          'started per neighbour and the source\'s chain continued exactly once, event arguments bound onto the handler\'s own signature; _process_rec_SIS_), and the event loop by the queue rule '
          '(lemma unit event_step_SIS: one step preserves the global invariant: rows, pending events in [now, tmax), a pending recovery sits at rec_time of an infected node, a pending attempt u->v '
@@ -45,7 +45,7 @@ CHECKS = {
  'C03': dict(
     category='other',
     text='Bounded stand-in only (labelled bounded): Gillespie_simple_contagion runs unmodified under a scripted random source on 9 model specifications x directed/undirected '
-         '5-node graphs x 6 initial conditions; at EVERY step the rate handed to expovariate equals the sum of the rates of the transitions enabled in the current statuses '
+         '5-node graphs (with and without self-loops) x 6 initial conditions; at EVERY step the rate handed to expovariate equals the sum of the rates of the transitions enabled in the current statuses '
          '(recomputed from the two specification graphs, weights and rate functions), exactly one node changes per event and the change is an enabled transition; over a grid '
          'of the selecting uniform draw each transition type is chosen with its rate share.',
     design_ref='DESIGN.md section 5 "C03"',
@@ -159,7 +159,7 @@ CHECKS = {
     category='proof',
     text='Gillespie_complex_contagion: loop invariant "rates[u] = rate_function(G,u,status,parameters) for every node with positive rate, total = their sum" established by the '
          'initialisation loop and preserved by the main loop provided the influence set covers every node whose rate changes (the documented precondition); the waiting time is drawn '
-         'with the total rate; the actor through the C16 contracts; the new status comes from transition_choice; rows consistent; for graphs of any order.',
+         'with the total rate; the actor through the _ListDict_ contracts (units re-verified inside this check); the new status comes from transition_choice; rows consistent; for graphs of any order.',
     design_ref='DESIGN.md section 5 "C15"',
     note='As C01. User call-backs modelled as uninterpreted functions of (node, status map); influence-set precondition is the documented one.',
     technique='contract-based deductive verification: loop invariants with call-back contracts, draw-site obligations, z3'),
